@@ -92,8 +92,16 @@ def apply_op(mt, case, op):
     if op[0] == 'cwd':
         if mt.early_stop_idx is None or mt.early_stop_idx == 0:
             return 'skipped'            # documented use: after an early stop
-        mt.continue_with_distance()
-        return None
+        # half of the cases (a function of the trace) give the jump radius explicitly, wider than the default 3 x max_dist:
+        # a radius for FINDING edges to jump to, not a new cut-off for the observations
+        import zlib
+        md_ = mt.max_dist if mt.max_dist is not None and mt.max_dist < float('inf') else None
+        if zlib.crc32(repr(tr).encode()) % 2 == 0 and md_ is not None:
+            mt.continue_with_distance(max_dist=5.0 * md_)
+        else:
+            mt.continue_with_distance()
+        # the documented recipe: after the jump the SAME trace is matched again in expansion mode
+        return mt.match(list(mt.path), expand=True)
     raise ValueError(op)
 
 
@@ -1018,3 +1026,64 @@ def case_C19(seed):
         viol.append((key19, f"ops {ops}: result #{j} at ERROR {out[0][j] if j < len(out[0]) else None} vs at DEBUG {out[1][j] if j < len(out[1]) else None}",
                      {'case': U.case_repr(case), 'ops': ops, 'error_level': out[0], 'debug_level': out[1]}))
     return {'nontrivial': cut, 'violations': viol, 'sample': {'case': U.case_repr(case), 'ops': ops}}
+
+
+# ================================================================================================== C03: a trace that comes from a file
+def gpx_suite(chk, tier, seed):
+    """'One emitting state per observation, index = last observation' is stated for the trace the caller hands over; when it is
+    handed over as a GPX file (match_gpx), the observations are the track points of the file: all of them, in order, repeats
+    included (a vehicle that stands still logs the same fix, even the same time stamp, more than once)."""
+    import os, tempfile, shutil, datetime as _dt
+    from leuvenmapmatching.util.gpx import gpx_to_path
+    from leuvenmapmatching.map.inmem import InMemMap
+    from leuvenmapmatching.matcher.distance import DistanceMatcher
+    U.quiet()
+    rnd = random.Random(seed * 1013 + 3)
+    n_cases = 60 if tier == 'quick' else 1500
+    d = tempfile.mkdtemp(prefix='verif_gpx_')
+    nontriv = 0
+    try:
+        for ci in range(n_cases):
+            lat0, lon0 = rnd.choice([(50.0, 4.0), (-35.0, 120.0), (0.001, 0.001)])
+            g = {1: ((lat0, lon0), [2]), 2: ((lat0, lon0 + 0.002), [1, 3]), 3: ((lat0 + 0.001, lon0 + 0.004), [2])}
+            n = rnd.randint(2, 7)
+            t0 = _dt.datetime(2020, 1, 1, 12, 0, 0)
+            pts = []
+            for i in range(n):
+                pts.append((lat0 + rnd.uniform(-1e-4, 1e-4) + 0.00015 * i * (i > n // 2), lon0 + 0.0035 * i / max(1, n - 1) + rnd.uniform(-1e-5, 1e-5), t0 + _dt.timedelta(seconds=5 * i)))
+            # repeats: the very same track point again (same time stamp), and the same position with a later time stamp
+            k = rnd.randrange(0, n)
+            style = rnd.choice(['exact', 'exact', 'later', 'none'])
+            if style == 'exact':
+                pts.insert(k + 1, pts[k])
+            elif style == 'later':
+                pts.insert(k + 1, (pts[k][0], pts[k][1], pts[k][2] + _dt.timedelta(seconds=1)))
+            if style != 'none':
+                nontriv += 1
+            fn = os.path.join(d, f"t{ci}.gpx")
+            with open(fn, 'w') as fh:
+                fh.write('<?xml version="1.0" encoding="UTF-8"?>\n<gpx version="1.1" creator="verif" xmlns="http://www.topografix.com/GPX/1/1">\n<trk><trkseg>\n')
+                for la, lo, t in pts:
+                    fh.write(f'<trkpt lat="{la!r}" lon="{lo!r}"><time>{t.strftime("%Y-%m-%dT%H:%M:%SZ")}</time></trkpt>\n')
+                fh.write('</trkseg></trk>\n</gpx>\n')
+            try:
+                got = gpx_to_path(fn)
+                ok = got is not None and len(got) == len(pts) and all(abs(a[0] - b[0]) < 1e-12 and abs(a[1] - b[1]) < 1e-12 for a, b in zip(got, pts))
+                msg = None if ok else f"gpx_to_path returned {None if got is None else len(got)} points for a file with {len(pts)} track points (repeat: {style} after #{k})"
+                if ok:
+                    mk = lambda: DistanceMatcher(InMemMap('gpx', use_latlon=True, use_rtree=False, graph=g), obs_noise=30, max_dist=200, non_emitting_states=(ci % 2 == 0))
+                    r1 = mk().match_gpx(fn, unique=False)
+                    r2 = mk().match([(a, b) for a, b, _ in pts], unique=False)
+                    if r1 != r2:
+                        msg = f"match_gpx -> {r1}, match on the same {len(pts)} points -> {r2}"
+            except Exception as e:
+                msg = f"raised {e!r}"
+            if msg:
+                chk.violation(key='C03:trace-from-a-gpx-file-loses-or-reorders-observations', text=msg,
+                              replay={'kind': 'bounded', 'suite': 'gpx', 'points': [[a, b, str(t)] for a, b, t in pts], 'repeat': style, 'after': k})
+    finally:
+        shutil.rmtree(d, ignore_errors=True)
+    chk.bounded_suite('trace-from-a-gpx-file', n_cases * 2, nontriv, [],
+                      rule="GPX files written by the suite (2-8 track points near three anchors, time stamps 5 s apart; in three of four files one track point is "
+                           "repeated, with the same or a later time stamp): gpx_to_path returns every track point in order, and match_gpx returns what match returns "
+                           "for the same points (DistanceMatcher on a three-node lat-lon map, non-emitting states on/off); non-trivial = file with a repeated point", bounds='')
